@@ -55,9 +55,12 @@ class TMiddleware : public Middleware
 {
 public:
     int id; bool ok; QStringList *obs; bool soft = false;
+    bool okWarm = false;                 // verdict `2`: admits the earlier (unobserved) requests, refuses the observed one
+    const bool *warming = nullptr;
     TMiddleware(int i, bool o, QStringList *l) : id(i), ok(o), obs(l) {}
     bool process(Socket *socket) override
     {
+        if (okWarm && warming && *warming) { obs->append(QString("mw:%1:1").arg(id)); return true; }
         obs->append(QString("mw:%1:%2").arg(id).arg(ok ? 1 : 0));
         if (!ok && soft) {
             // writes its own complete response and leaves the connection open
@@ -84,7 +87,7 @@ void runRoute(const Scn &scn, Out &out)
     QList<QObject *> owned;
     THandler *root = nullptr;
     QByteArray raw;
-    bool noroot = false, late = false, unsetlate = false, soft = false;
+    bool noroot = false, late = false, unsetlate = false, soft = false, warming = false;
     foreach (const QString &t, scn.toks) {
         if (t == "soft") soft = true;
         else if (t == "noroot") noroot = true;
@@ -100,6 +103,7 @@ void runRoute(const Scn &scn, Out &out)
             // does is not recorded: routing of the observed request must not depend on it
             if (root && !noroot && !late) server->setHandler(root);
             int mark = obs->size();
+            warming = true;
             QStringList sink;
             QPointer<SimTcp> wt = new SimTcp;
             wt->log = &sink;
@@ -110,6 +114,7 @@ void runRoute(const Scn &scn, Out &out)
             eventTurn();
             if (wt) { wt->log = nullptr; }
             while (obs->size() > mark) obs->removeLast();
+            warming = false;
             continue;
         }
         if (p[0] == "pat") pats[p[1].toInt()] = QRegExp(un16(p[2]));
@@ -120,7 +125,8 @@ void runRoute(const Scn &scn, Out &out)
             if (p[2] == "-1") root = h; else nodes[p[2].toInt()]->addSubHandler(pats[p[3].toInt()], h);
         }
         else if (p[0] == "redir") nodes[p[1].toInt()]->addRedirect(pats[p[2].toInt()], un16(p[3]));
-        else if (p[0] == "mw") { TMiddleware *m = new TMiddleware(p[2].toInt(), p[3] == "1", obs); m->soft = soft; owned << m; nodes[p[1].toInt()]->addMiddleware(m); }
+        else if (p[0] == "mw") { TMiddleware *m = new TMiddleware(p[2].toInt(), p[3] == "1", obs); m->soft = soft; m->okWarm = p[3] == "2"; m->warming = &warming;
+                                 owned << m; nodes[p[1].toInt()]->addMiddleware(m); }
         else if (p[0] == "req") raw = unhx(p[1]);
     }
     QByteArray stream = "GET " + raw + " HTTP/1.1\r\n\r\n";
